@@ -38,11 +38,12 @@ func (p *FunctionBuilder) buildManipulator(
 		return nil, logger.Errorf("%v: cannot use manipulator function %v due to mismatch of returning error", p.fset.Position(m.Pos), ret.FuncName())
 	}
 
-	if !types.AssignableTo(util.DerefPtr(m.DstSide), util.DerefPtr(dst.Type())) {
+	// The method's operands are the values, the hook's parameters are what they are assigned to.
+	if !types.AssignableTo(util.DerefPtr(dst.Type()), util.DerefPtr(m.DstSide)) {
 		return nil, logger.Errorf("%v: manipulator function %v 1st arg type mismatch", p.fset.Position(m.Pos), ret.FuncName())
 	}
 
-	if !types.AssignableTo(util.DerefPtr(m.SrcSide), util.DerefPtr(src.Type())) {
+	if !types.AssignableTo(util.DerefPtr(src.Type()), util.DerefPtr(m.SrcSide)) {
 		return nil, logger.Errorf("%v: manipulator function %v 2nd arg type mismatch", p.fset.Position(m.Pos), ret.FuncName())
 	}
 
@@ -51,7 +52,7 @@ func (p *FunctionBuilder) buildManipulator(
 			return nil, logger.Errorf("%v: manipulator function %v additional args count mismatch", p.fset.Position(m.Pos), ret.FuncName())
 		}
 		for i, arg := range m.AdditionalArgs {
-			if !types.AssignableTo(arg, additionalArgs[i].Type()) {
+			if !types.AssignableTo(additionalArgs[i].Type(), arg) {
 				return nil, logger.Errorf("%v: manipulator function %v %s arg type mismatch", p.fset.Position(m.Pos), ret.FuncName(), ordinalNumber(i+3))
 			}
 		}
